@@ -123,13 +123,17 @@ func genTableN(rng *rand.Rand, kind string, rows int) genFile {
 	return genFile{kind: kind, bytes: []byte(b.String()), lines: lines}
 }
 
-func genNd(rng *rand.Rand, g *jsonGen) genFile {
-	rows := 2 + rng.Intn(6)
+func genNd(rng *rand.Rand, g *jsonGen) genFile { return genNdN(rng, g, 2+rng.Intn(6)) }
+
+func genNdN(rng *rand.Rand, g *jsonGen, rows int) genFile {
 	term := []string{"\n", "\r\n"}[rng.Intn(2)]
 	final := rng.Intn(2) == 0
 	damage := -1
 	if rng.Intn(4) == 0 {
 		damage = rng.Intn(rows)
+	}
+	if rows > 50 && rng.Intn(3) > 0 {
+		damage = rows/2 + rng.Intn(rows-rows/2)
 	}
 	var b strings.Builder
 	var lines []lineInfo
@@ -143,6 +147,12 @@ func genNd(rng *rand.Rand, g *jsonGen) genFile {
 			ln = g.array(2)
 		default:
 			ln = g.object(2)
+		}
+		if rows > 50 { // short lines so that hundreds of them fit into the default header
+			ln = []string{`{"a":1}`, `[1,2]`, `{"b":[]}`, `{}`, `[{"c":null}]`, `7`}[rng.Intn(6)]
+			if r == damage {
+				ln = []string{`{"a":1}`, `[1,2]`, `{"b":[]}`}[rng.Intn(3)]
+			}
 		}
 		ln = strings.NewReplacer("\n", " ", "\r", " ").Replace(ln)
 		if r > 0 && r < rows-1 && rng.Intn(10) == 0 {
@@ -235,8 +245,10 @@ func linetraceMain(args []string) int {
 		default:
 			gf = genNd(rng, g)
 		}
-		long := fi%25 == 24 && fi%3 != 2
-		if long {
+		long := fi%25 >= 22
+		if long && gf.kind == "nd" {
+			gf = genNdN(rng, g, 90+rng.Intn(200))
+		} else if long {
 			gf = genTableN(rng, gf.kind, 90+rng.Intn(90))
 		}
 		if len(gf.bytes) == 0 {
